@@ -19,7 +19,7 @@ import (
 
 // qe: the life of one query event on a real service (C15).
 
-const qeDuration = 150 * time.Millisecond
+const qeDuration = 400 * time.Millisecond // long enough that a slow machine still delivers a block of requests inside it
 
 type qeDom struct {
 	run      *svc.Runner
@@ -341,7 +341,7 @@ func (d *qeDom) Exec(a []string) string {
 			d.Close()
 			return qeScenario(a)
 		case "req":
-			out, _ := d.send(a[1], a[2:], 2000)
+			out, _ := d.send(a[1], a[2:], 6000)
 			return out
 		case "late":
 			out, delta := d.send(a[1], a[2:], 30)
